@@ -38,7 +38,7 @@ type C19Live struct {
 	SRIH      bool     `json:"srih,omitempty"`
 	PoolFirst bool     `json:"pool_first,omitempty"`
 	Order     int      `json:"order"` // 0: pending messages are delivered FIFO, 1: LIFO (both deliver everything before any timer)
-	Lim       C19Lim   `json:"lim"` // small block limits (zero value: defaults)
+	Lim       C19Lim   `json:"lim"`   // small block limits (zero value: defaults)
 	Pools     [][]int  `json:"pools"`
 	Skew      []int    `json:"skew_ms,omitempty"`
 	Inj       []C19Inj `json:"inj,omitempty"`
